@@ -160,6 +160,13 @@ func c17One(rep *Report, f *Fixture, server uint16, c c17Case) {
 	t.Send(HandshakeReq(c.major, c.minor, c.version, c.caps))
 	_, to := t.WaitPackets(1, W)
 	s := t.Snapshot()
+	if len(s.Packets) == 0 && to && rep.ViolationCount() < 20 {
+		// a loaded machine is not a verdict: only an answer that has not come after a further minute
+		// counts as missing (a tree that never answers is still reported, the first 20 times at this price)
+		rep.Count("handshake_answers_waited_for_beyond_5s", 1)
+		_, to = t.WaitPackets(1, 60*time.Second)
+		s = t.Snapshot()
+	}
 	if len(s.Packets) == 0 {
 		if to {
 			rep.Violate("C17/no-handshake-response", fmt.Sprintf("server caps %#x client %#x: no response and no end within %v", server, c.caps, W), detail(s))
